@@ -524,6 +524,7 @@ func runC08(e *core.Env) error {
 			}
 		})
 		verdict := "ok"
+		nLatest := 0
 		for i := 0; i < 25; i++ {
 			switch rr.Intn(4) {
 			case 0:
@@ -536,6 +537,13 @@ func runC08(e *core.Env) error {
 				})
 			default:
 				num, h, err := cl.Latest(ctx, n2.URL(), uint64(rr.Intn(10)))
+				nLatest++
+				if ws && n2.Subscribers() == 0 {
+					// the listener is started by the first Latest and dials in the background: give it a moment
+					for w := 0; w < 100 && n2.Subscribers() == 0; w++ {
+						time.Sleep(3 * time.Millisecond)
+					}
+				}
 				for _, a := range n2.WSAnnounced() {
 					announced[a] = true
 				}
@@ -563,7 +571,7 @@ func runC08(e *core.Env) error {
 		}
 		subs := n2.Subscribers()
 		n2.Close()
-		if ws && subs == 0 {
+		if ws && subs == 0 && nLatest > 0 {
 			verdict = "the client never subscribed to newHeads over the websocket"
 		}
 		e.Add(core.Case{Impl: verdict, Spec: "ok", Key: fmt.Sprintf("latest %d", s), Nontrivial: true, Tags: []string{"client-latest", fmt.Sprintf("websocket=%v", ws)}})
